@@ -24,6 +24,7 @@ fn main() {
         Some("c16-subst") => more::c16_subst(),
         Some("c08-resolve") => more::c08_resolve(),
         Some("c11-validate") => more::c11_validate(),
+        Some("c08-flatten") => more::c08_flatten(),
         _ => {
             eprintln!("usage: vreplay fmt-search <maxlen> <seed> | fmt-one <string> | fmt-repeat <string> <count>");
             2
